@@ -3,6 +3,7 @@ package main
 import (
 	"bytes"
 	"context"
+	"encoding/base64"
 	"encoding/json"
 	"errors"
 	"fmt"
@@ -10,6 +11,7 @@ import (
 	"net/http"
 	"net/url"
 	"sort"
+	"strconv"
 	"strings"
 	"sync"
 	"time"
@@ -104,6 +106,7 @@ type world struct {
 	opNo       int64
 	setOp      func(int64)
 	direct     bool   // the current op bypasses the stack (pre-population)
+	rawURL     string // outermost HTTP server when the stack is one HTTP hop (wire-level upload requests)
 	serverURL  string // outermost HTTP server of the stack ("" if none or single POST disabled)
 	// noFreshIDs: resuming a session the stack has not issued an id for is skipped
 	noFreshIDs bool
@@ -141,7 +144,7 @@ func opEvent(op Op) ev {
 	b, _ := json.Marshal(op)
 	var e ev
 	json.Unmarshal(b, &e)
-	if op.Data != nil || op.Op == "Write" {
+	if op.Data != nil || op.Op == "Write" || op.Op == "RawPatch" || op.Op == "RawPut" {
 		d := op.Data
 		if d == nil {
 			d = []int{}
@@ -204,6 +207,28 @@ func (w *world) setWriter(key, u, id string, bw ociregistry.BlobWriter) {
 	if i := strings.Index(key, "|"); i >= 0 {
 		w.ids["*|"+key[i+1:]] = id
 	}
+}
+
+// rawLocation is the URL of the upload session u of repository r for a plain HTTP request: the
+// location the client was given for it, or (for a name no session has been given anywhere) a
+// location with a fresh id.  A name in use in another repository only is not resolved.
+func (w *world) rawLocation(r, u string) (string, bool) {
+	w.mu.Lock()
+	defer w.mu.Unlock()
+	id, ok := w.ids[r+"|"+u]
+	if !ok {
+		if _, elsewhere := w.ids["*|"+u]; elsewhere {
+			return "", false
+		}
+		id = "fresh-" + r + "-" + u
+	}
+	switch {
+	case strings.HasPrefix(id, "http://"), strings.HasPrefix(id, "https://"):
+		return id, true
+	case strings.HasPrefix(id, "/"):
+		return w.rawURL + id, true
+	}
+	return w.rawURL + "/v2/" + r + "/blobs/uploads/" + base64.RawURLEncoding.EncodeToString([]byte(id)), true
 }
 
 func (w *world) idOf(key string) (string, bool) {
@@ -281,6 +306,92 @@ func (w *world) exec(ctx context.Context, op Op) (e ev) {
 			e["dsize"] = len(c.Data)
 			e["mt"] = "octet"
 			e["status"] = resp.StatusCode
+			break
+		}
+		var werrs ociregistry.WireErrors
+		if json.Unmarshal(body, &werrs) == nil && len(werrs.Errors) > 0 {
+			observeErr(e, ociregistry.NewHTTPError(&werrs, resp.StatusCode, nil, nil))
+		} else {
+			observeErr(e, fmt.Errorf("status %d with no OCI error body", resp.StatusCode))
+			e["status"] = resp.StatusCode
+		}
+	case "RawPatch", "RawPut", "RawStatus":
+		// the upload requests as any HTTP client may send them (the client library always sends a
+		// Content-Range that continues where its own writer stands): plain requests against the stack's
+		// outermost server.  Off = -2: no Content-Range header.
+		if w.rawURL == "" || w.direct {
+			e["op"] = "skip"
+			break
+		}
+		loc, ok := w.rawLocation(op.R, op.U)
+		if !ok {
+			e["op"] = "skip"
+			break
+		}
+		data := elemsToBytes(op.Data)
+		var req *http.Request
+		switch op.Op {
+		case "RawPatch":
+			req, _ = http.NewRequestWithContext(ctx, "PATCH", loc, bytes.NewReader(data))
+		case "RawPut":
+			u, err := url.Parse(loc)
+			if err != nil {
+				e["op"] = "skip"
+				break
+			}
+			q := u.Query()
+			q.Set("digest", string(w.digestOf(op.DD)))
+			u.RawQuery = q.Encode()
+			req, _ = http.NewRequestWithContext(ctx, "PUT", u.String(), bytes.NewReader(data))
+		default:
+			req, _ = http.NewRequestWithContext(ctx, "GET", loc, nil)
+		}
+		if req == nil {
+			break
+		}
+		if op.Op != "RawStatus" {
+			req.Header.Set("Content-Type", "application/octet-stream")
+			if op.Off != -2 {
+				end := op.Off + len(data) - 1
+				if end < 0 {
+					end = 0
+				}
+				req.Header.Set("Content-Range", fmt.Sprintf("%d-%d", op.Off, end))
+			}
+		}
+		req.Header.Set("X-Verif-Op", fmt.Sprint(w.opNo))
+		resp, err := http.DefaultClient.Do(req)
+		if err != nil {
+			observeErr(e, err)
+			break
+		}
+		body, _ := io.ReadAll(resp.Body)
+		resp.Body.Close()
+		e["status"] = resp.StatusCode
+		if resp.StatusCode/100 == 2 {
+			observeErr(e, nil)
+			e["status"] = resp.StatusCode
+			if op.Op == "RawPut" {
+				d := w.cat.cidOfDigest(digest.Digest(resp.Header.Get("Docker-Content-Digest")))
+				e["d"] = d
+				e["dsize"] = 0
+				if c := w.cat.byID[d]; c != nil {
+					e["dsize"] = len(c.Data)
+				}
+				e["mt"] = "octet"
+				break
+			}
+			// "0-<end>"
+			e["n"] = -1
+			if _, end, ok := strings.Cut(resp.Header.Get("Range"), "-"); ok {
+				if n, err := strconv.Atoi(end); err == nil {
+					e["n"] = n
+				}
+			}
+			e["range"] = resp.Header.Get("Range")
+			if l, err := resp.Location(); err == nil {
+				w.setWriter(op.R+"|"+op.U, op.U, l.String(), nil)
+			}
 			break
 		}
 		var werrs ociregistry.WireErrors
